@@ -12,6 +12,7 @@
 import collections
 import itertools
 import json
+import logging
 import random
 import struct
 
@@ -1039,7 +1040,7 @@ def normal_tp(tp):
     return collections.OrderedDict((t, sorted(set(ps))) for t, ps in tp.items())
 
 
-def e2e_round(members, tp, leader_idx=0, order_seed=None, lookup=None, info=None):
+def e2e_round(members, tp, leader_idx=0, order_seed=None, lookup=None, info=None, public=False):
     """One rebalance of a group whose members are real afkak Coordinator objects talking to a scripted
     group coordinator.  Requests are the bytes the real encoders produce (parsed here independently);
     responses are bytes built here and decoded by the real decoders.
@@ -1048,6 +1049,8 @@ def e2e_round(members, tp, leader_idx=0, order_seed=None, lookup=None, info=None
       lookup     : None = client._load_topic_partitions stubbed by its documented contract;
                    a script (see script_answer) = the REAL KafkaClient._load_topic_partitions against that broker
       info       : dict filled with what the lookup did (requests, snapshot) and whether the leader sent SyncGroup
+      public     : drive the public join_and_sync() (whose errback decides between rejoin and log-only) instead of
+                   _join_and_sync(); info then says whether anything is left scheduled for the leader afterwards
     Returns ({member_id: {topic: tuple}} as passed to on_join_complete, error-or-None)."""
     from twisted.internet import defer
     from twisted.internet.task import Clock
@@ -1170,7 +1173,14 @@ def e2e_round(members, tp, leader_idx=0, order_seed=None, lookup=None, info=None
     info["leader_error"] = None
     try:
         for c in coords:
-            d = c._join_and_sync()
+            if public:
+                logging.disable(logging.CRITICAL)            # join_and_sync() logs the escaping exception
+                try:
+                    d = c.join_and_sync()
+                finally:
+                    logging.disable(logging.NOTSET)
+            else:
+                d = c._join_and_sync()
 
             def failed(f, c=c):
                 errors.append(repr(f.value))
@@ -1182,6 +1192,8 @@ def e2e_round(members, tp, leader_idx=0, order_seed=None, lookup=None, info=None
         for c in coords:
             if c._heartbeat_looper.running:
                 c._heartbeat_looper.stop()
+        info["timers_armed_afterwards"] = len(clock.getDelayedCalls())
+        info["rejoin_after_error_calls"] = len([e for e in errors if e.startswith("join_and_sync:")])
     except Exception as e:  # noqa: BLE001
         errors.append(repr(e))
     if errors:
